@@ -2,10 +2,12 @@
 EXTENDS Workers
 Tok(mn, mx, sl) == [min |-> mn, max |-> mx, sil |-> sl, imin |-> 0, isil |-> 0, strict |-> FALSE, drop |-> FALSE]
 Cfg(t, n, sv, ca, st) == [min |-> t.min, max |-> t.max, sil |-> t.sil, imin |-> 0, isil |-> 0, strict |-> t.strict, drop |-> t.drop,
-                          nobs |-> n, saver |-> sv, cache |-> ca, stop |-> st]
+                          nobs |-> n, saver |-> sv, cache |-> ca, stop |-> st, joiner |-> 0]
 ToksQ == {Tok(1, 2, 1), Tok(2, 2, 0)}
 \* quick: 1 observer + saver, natural end and stop; thorough adds 2 observers, no observer, cache thresholds
 PSetQuick == {Cfg(t, 1, TRUE, 2, st) : t \in ToksQ, st \in BOOLEAN}
 PSetObs2 == {Cfg(t, 2, sv, 2, TRUE) : t \in ToksQ, sv \in BOOLEAN}
+\* an event-joining observer (drains its inbox after the stop marker) next to a plain one
+PSetJoiner == {[Cfg(t, 2, FALSE, 2, st) EXCEPT !.joiner = 1] : t \in ToksQ, st \in BOOLEAN}
 PSetCache == {Cfg(Tok(1, 2, 1), n, TRUE, ca, TRUE) : n \in {0, 1}, ca \in {1, 3, 100}}
 =============================================================================
